@@ -380,6 +380,8 @@ def _eval_float(t, env, memo):
             v = _eval_float(ch[0], env, memo) > _eval_float(ch[1], env, memo)
         elif k == z3.Z3_OP_EQ:
             v = _eval_float(ch[0], env, memo) == _eval_float(ch[1], env, memo)
+        elif k == z3.Z3_OP_DISTINCT:
+            v = _eval_float(ch[0], env, memo) != _eval_float(ch[1], env, memo)
         elif k == z3.Z3_OP_NOT:
             v = not _eval_float(ch[0], env, memo)
         elif k == z3.Z3_OP_AND:
